@@ -231,6 +231,15 @@ func runC05(c *Case) {
 		setTime()
 		t0 := time.Now()
 		n0 := st.LogLen()
+		coldSecond := r.Intn(5) == 0
+		if coldSecond {
+			// the second table is re-created, so that joining the transaction has to read its tree
+			conn.Exec("drop table " + vt2)
+			if err := conn.Create(spec2); err != nil {
+				fail("reopen", "re-create of the second table failed: "+err.Error())
+				return
+			}
+		}
 		prog = append(prog, "BEGIN")
 		if err := conn.Exec("begin"); err != nil {
 			fail("begin-error", err.Error())
@@ -245,7 +254,21 @@ func runC05(c *Case) {
 				// the second table joins the running transaction
 				k2 := int64(r.Intn(40))
 				q2 := "insert into %U values (?,?,?)"
+				if coldSecond {
+					// its first read fails: the statement fails, the transaction goes on without it
+					st.Client("w2").AddFault(fs3.Fault{Op: fs3.OpGet, Action: "error"})
+				}
 				e1 := conn.Exec(strings.ReplaceAll(q2, "%U", vt2), k2, fmt.Sprintf("u%d", stmtNo), nil)
+				if coldSecond {
+					st.Client("w2").ClearFaults()
+					coldSecond = false
+					if e1 != nil && fs3.IsInjected(e1) {
+						c.Count("second_table_failed_to_join", 1)
+						prog = append(prog, fmt.Sprintf("insert into second table k=%d -> %v (injected)", k2, e1))
+						stmtNo++
+						continue
+					}
+				}
 				e2 := conn.Exec(strings.ReplaceAll(q2, "%U", nt2), k2, fmt.Sprintf("u%d", stmtNo), nil)
 				stmtNo++
 				prog = append(prog, fmt.Sprintf("insert into second table k=%d -> %v", k2, e1))
